@@ -116,6 +116,17 @@ def hang_certificate(evs):
     parked = [e for e in last.values() if e.text.startswith("202 ") and e.text.split()[3] == "0x1"]
     if len(last) == 1 and len(parked) == 1:
         return "only thread %d left, parked in futex wait: %s" % (parked[0].tid, parked[0].text)
+    # several threads left, every one of them parked in a futex wait without a timeout (FUTEX_WAIT / WAIT_BITSET,
+    # timeout pointer null): nobody is left who could wake anybody
+    def untimed_wait(e):
+        f = e.text.split()
+        try:
+            return f[0] == "202" and (int(f[2], 16) & 0x7f) in (0, 9) and int(f[4], 16) == 0
+        except (IndexError, ValueError):
+            return False
+    if len(last) > 1 and all(untimed_wait(e) for e in last.values()) and seen78.tid in last:
+        return "all %d remaining threads parked in futex waits without timeout: %s" % (
+            len(last), "; ".join("%d: %s" % (e.tid, e.text) for e in last.values()))
     return None
 
 
